@@ -727,6 +727,11 @@ func (in *interp) callSSA(caller *frame, callpos token.Pos, fn *ssa.Function, ar
 	in.depth++
 	if in.depth > in.cfg.maxDepth {
 		in.depth--
+		if in.path != nil && in.path.unwindViolates && !in.speculating {
+			in.ensureModel()
+			in.reportViolation("terminates", fmt.Sprintf("call depth %d exceeded in %s (unbounded recursion)", in.cfg.maxDepth, fn), in.path.model)
+			panic(abortPath{abortStop, "termination bound exceeded"})
+		}
 		panic(in.abort(abortUnwind, "call depth limit exceeded in "+fn.String()))
 	}
 	defer func() { in.depth-- }()
